@@ -43,7 +43,8 @@ def ford_fulkerson(G: Dict[int, List[Tuple[int, int]]], s: int, t: int) -> Tuple
         G_f[j] += [(i, 0)]
 
   while True:
-    path_from_sink_to_source = dfs_path(G_f, s, t, {i: 0 for i in G_f.keys()})
+    # The source starts out visited so that a path never re-enters it.
+    path_from_sink_to_source = dfs_path(G_f, s, t, {i: (1 if i == s else 0) for i in G_f.keys()})
     if path_from_sink_to_source is None:
       # Only return the flow in the original graph
       flow_final = dict()
